@@ -241,6 +241,19 @@ def quad_cases(rng, ctx, full):
             else:
                 cases.append({'id': cid, 'ev': 'expr', 'mode': 'quad', 'expr': gen.strip(expr), 'ops': [project_obs(o) for o in ops], 'res': res})
             ctx.nontrivial.add(('quad', name, sub, cls))
+    # plain parameters typed as integers are numbers like any other: x^2 p0^(-p1) and the overflow-prone x p0^p1 / 1e20
+    for k, (fi, pi, Fi) in enumerate([(lambda p, x: x ** 2 * p[0] ** (-p[1]), [2, 3], lambda xi: N('mul', C(2.0 ** -3), N('div', N('pow', xi, C(3)), C(3)))),
+                                      (lambda p, x: x * p[0] ** p[1] / 1e20, [10, 20], lambda xi: N('mul', C(1.0), N('div', N('pow', xi, C(2)), C(2))))]):
+        a, b = 0.0, float(np.round(rng.uniform(0.8, 1.5), 3))
+        cases.append({'id': 'quad-intpar%d-plain' % k, 'ev': 'sameplain', 'got': _plain(lambda: pe.integrate.quad(fi, pi, a, b)),
+                      'want': _plain(lambda: scipy.integrate.quad(lambda x: fi(pi, x), a, b))})
+        bo = _rescale(_obs(rng, 'same', [1.0], k=1)[0], b)
+        try:
+            with np.errstate(all='ignore'):
+                res = project_any(pe.integrate.quad(fi, pi, a, bo)[0])
+        except Exception as e:  # noqa: BLE001
+            res = project_exc(e)
+        cases.append({'id': 'quad-intpar%d-obslimit' % k, 'ev': 'expr', 'mode': 'quad', 'expr': gen.strip(N('sub', Fi(V(1)), Fi(C(a)))), 'ops': [project_obs(bo)], 'res': res})
     return cases
 
 
